@@ -122,15 +122,38 @@ def run_batch(modname, fname, items, extra=None, chunk=None, procs=None, wall_li
             if wall_limit and time.perf_counter() - t0 > wall_limit:
                 break
         return results
+    if wall_limit is None:
+        wall_limit = wall_budget()
     ctx = multiprocessing.get_context("fork")
     with cf.ProcessPoolExecutor(max_workers=procs, mp_context=ctx) as ex:
         futs = [ex.submit(_worker, (modname, fname, c, extra)) for c in chunks]
+        skipped = 0
         for f, c in zip(futs, chunks):
+            if wall_limit and time.perf_counter() - t0 > wall_limit and f.cancel():
+                # the batch's wall-clock budget is used up: chunks that have not started are left out (and counted)
+                skipped += len(c)
+                continue
             try:
                 results.extend(f.result(timeout=1800))
             except Exception as e:
                 results.extend([{"harness_error": "worker died: %r" % (e,), "item": repr(it)[:200]} for it in c])
+        if skipped:
+            results.append({"evaluations": 0, "probes": {"items-left-out-by-wall-budget": skipped}, "findings": [],
+                            "distinct": []})
+            print("note: %d of %d items left out, wall-clock budget of %ds for this batch used up" % (
+                skipped, len(items), wall_limit))
     return results
+
+
+def wall_budget():
+    """Wall-clock budget of one batch in seconds (VERIF_WALL_S; default: none for quick, 1200 for thorough)."""
+    try:
+        v = int(os.environ.get("VERIF_WALL_S", "0"))
+    except ValueError:
+        v = 0
+    if v > 0:
+        return v
+    return 1200 if tier() == "thorough" else None
 
 
 # ---------------------------------------------------------------------------------------
